@@ -791,7 +791,7 @@ func runC13(args []string) error {
 	r := newRng(*seed)
 	sm := newSummary("C13")
 	distinct := distinctSet{}
-	nEnv := 2000
+	nEnv := 1500
 	if *tier == "thorough" {
 		nEnv = 20000
 	}
